@@ -13,7 +13,7 @@
    destructor is `reachable` too. *)
 From OlaBase Require Import Bytes.
 From Coq Require Import Sorted.
-From C12 Require Import Gen Model ProofsT ProofsA ProofsB ProofsC ProofsD ProofsR ProofsE ProofsE2 ProofsP Proofs.
+From C12 Require Import Gen Model ProofsT ProofsA ProofsB ProofsC ProofsD ProofsR ProofsE ProofsE2 ProofsP ProofsX Proofs.
 Local Open Scope N_scope.
 
 (* the constants the model and the statements below use are those of the headers *)
@@ -361,6 +361,75 @@ Example c12_example_discovery :
            Deliver ack; DeliverDisc; DeliverDisc] with
   | Some f => g_runs f = [(0, true, [(false, 0); (true, 1); (false, 2)]); (1, false, [(false, 3)])] /\
               g_ddone f = [(0, 0); (1, 0); (2, 0); (3, 1)] /\ dv_of f = O /\ g_conc f = 1
+  | None => False
+  end.
+Proof. vm_compute. repeat split. Qed.
+
+(* A run serving a discovery request started after that request was queued: the log of runs only grows,
+   one record per step at most, and at the instant a run's record appears every request it takes has an
+   id below the request counter (its Run*Discovery call has already happened) and has not been taken by
+   any earlier run. *)
+Theorem c12_discovery_run_after_queue : forall max discov ms ds s f ag s' ag',
+  reachable max discov ms ds s (f :: ag) -> step s f ag = (s', ag') ->
+  g_runs s' = g_runs s \/
+  exists e, g_runs s' = g_runs s ++ [e] /\
+    forall d, In d (map snd (snd e)) ->
+      d < h_ndid s' /\
+      ~ In d (flat_map (fun e : N * bool * list (bool * N) => map snd (snd e)) (g_runs s)).
+Proof. exact reach_run_after_queue. Qed.
+Print Assumptions c12_discovery_run_after_queue.
+
+(* Resume() with discovery requests waiting: if no request is in flight and no discovery is running,
+   the Resume() call itself starts a discovery run that takes all waiting requests - also when no RDM
+   request is queued at all - and (c12_one_outstanding) it is the only call outstanding. *)
+Theorem c12_resume_progress : forall max discov ms ds s ag s' ag',
+  reachable max discov ms ds s (FOp Resume :: ag) ->
+  s_pending s = false -> s_rdisc s = [] -> s_pdisc s <> [] ->
+  step s (FOp Resume) ag = (s', ag') ->
+  m_dout s' = m_dout s ++ [m_nrun s] /\ s_pdisc s' = [] /\ s_rdisc s' <> [] /\
+  (exists full, g_runs s' = g_runs s ++ [(m_nrun s, full, map (fun e => fst e) (s_pdisc s))]) /\
+  len (m_out s') + len (m_dout s') <= 1.
+Proof.
+  intros max discov ms ds s ag s' ag' Hr Hp Hrd Hpd H.
+  destruct (resume_starts_disc _ _ _ _ Hp Hrd Hpd H) as (A & B & C & D).
+  split; [exact A|]. split; [exact B|]. split; [exact C|]. split; [exact D|].
+  pose proof (R_step _ _ _ _ _ _ _ _ _ Hr H) as Hr'.
+  destruct (reach_outstanding _ _ _ _ _ _ Hr') as (Ho & _). exact Ho.
+Qed.
+Print Assumptions c12_resume_progress.
+
+Example c12_example_resume :
+  match exec_ops (init 3 true [] []) [Pause; Disc false true []; Disc true false []; Resume] with
+  | Some s => g_trace s = [TDisc true] /\ m_dout s = [0] /\ s_pdisc s = [] /\
+              map (fun e => (fst (fst e), snd (fst e), map snd (snd e))) (g_runs s) = [(0, true, [0; 1])]
+  | None => False
+  end.
+Proof. vm_compute. repeat split. Qed.
+
+(* Finishing an ACK_OVERFLOW sequence while paused sends nothing: the step that delivers an answer of
+   the underlying controller while the paused flag is set (in particular the last part of a sequence,
+   whose completion callback then runs) adds no call to the underlying controller; the answered call
+   leaves the outstanding list and nothing enters it. *)
+Theorem c12_paused_after_overflow : forall max discov ms ds s r ag s' ag',
+  reachable max discov ms ds s (FOp (Deliver r) :: ag) -> h_paused s = true ->
+  step s (FOp (Deliver r)) ag = (s', ag') ->
+  length (filter (fun e => match e with TSend _ | TDisc _ => true | _ => false end) (g_trace s')) =
+  length (filter (fun e => match e with TSend _ | TDisc _ => true | _ => false end) (g_trace s)) /\
+  (m_out s' = m_out s \/ exists i, m_out s = i :: m_out s') /\
+  (m_dout s' = m_dout s \/ exists x, m_dout s = x :: m_dout s').
+Proof.
+  intros max discov ms ds s r ag s' ag' Hr Hp H.
+  eapply reach_paused_step; [exact Hr|exact Hp|discriminate|exact H].
+Qed.
+Print Assumptions c12_paused_after_overflow.
+
+Example c12_example_paused_overflow :
+  let ack := mkReply 0 (Some (mkResp 0 1 33 0 [7] (100, 2, 0, 0))) 1 in
+  let ovf := mkReply 0 (Some (mkResp 3 1 33 0 [5] (100, 2, 0, 0))) 1 in
+  match exec_ops (init 3 false [] []) [Submit false []; Deliver ovf; Pause; Submit false []; Deliver ack] with
+  | Some s => map (fun e => match e with TSend i => (1, i) | TComp c => (2, c_id c) | _ => (0, 0) end)
+                  (g_trace s) = [(2, 0)] /\        (* the last operation only ran the completion callback *)
+              m_out s = [] /\ map fst (s_queue s) = [1] /\ s_pending s = false
   | None => False
   end.
 Proof. vm_compute. repeat split. Qed.
